@@ -196,7 +196,7 @@ def cases_v_crosscheck(cases, expected, label):
         f.write("From PV Require Import Extract.Dispatch.\nFrom Coq Require Import NArith List.\n"
                 "Import ListNotations.\nOpen Scope N_scope.\nSet Printing Width 1000000.\nSet Printing Depth 1000000.\n")
         for c in cases:
-            f.write("Eval vm_compute in (run [%s]).\n" % "; ".join(c.split()))
+            f.write("Eval vm_compute in (dispatch [%s]).\n" % "; ".join(c.split()))
     p = sh(["timeout", "600", "coqc", "-Q", COQ, "PV", "-noglob", path], cwd=BUILD)
     if p.returncode != 0:
         raise Failure("cases.v evaluation failed", (p.stdout + p.stderr)[-2000:])
